@@ -713,8 +713,23 @@ def _rebase(o):
 
 
 # ------------------------------------------------------------------ items
+def hash_key(k):
+    """the key as a hash-based container sees it: unhashable values raise TypeError (bytearray, list, dict, set), an
+    immutable byte string with concrete content is its bytes value"""
+    if isinstance(k, SBytes):
+        if k.mutable:
+            raise PyRaise(TypeError("unhashable type: 'bytearray'"), implicit=True)
+        c = concretize_bytes(k)
+        return k if c is None else c
+    if isinstance(k, (bytearray, list, dict, set)):
+        raise PyRaise(TypeError(f"unhashable type: '{type(k).__name__}'"), implicit=True)
+    return k
+
+
 def getitem(I, o, k):
     e = I.e
+    if type(o) is dict:
+        k = hash_key(k)
     if isinstance(o, (bytes, bytearray)) and is_sym(k):
         o = SBytes.const(o, isinstance(o, bytearray))
     if isinstance(o, SBytes):
@@ -751,6 +766,8 @@ def getitem(I, o, k):
 
 def setitem(I, o, k, v):
     e = I.e
+    if type(o) is dict:
+        k = hash_key(k)
     if isinstance(o, SBytes):
         if not o.mutable:
             raise PyRaise(TypeError("'bytes' object does not support item assignment"), implicit=True)
@@ -990,6 +1007,8 @@ def contains(I, container, x):
         raise Undecided("membership with unmodelled value")
     if hasattr(type(container), "__pyvc_method__"):
         return container.__pyvc_method__(I, "__contains__", [x], {})
+    if type(container) in (dict, set, frozenset):
+        x = hash_key(x)
     if isinstance(container, (list, tuple, set, frozenset)) or isinstance(container, (dict,)) or hasattr(
             container, "keys") and isinstance(container, dict):
         elems = list(container)
